@@ -520,6 +520,8 @@ where
     CS: BbsCiphersuite,
     CS::Expander: for<'a> ExpandMsg<'a>,
 {
+    #[cfg(zkryptium_verif)]
+    crate::verif_hooks::tick("phase:core_proof_gen");
     let L = messages.len();
     if L > generators.values.len() - 1 {
         return Err(Error::NotEnoughGenerators);
@@ -627,6 +629,8 @@ where
     CS: BbsCiphersuite,
     CS::Expander: for<'a> ExpandMsg<'a>,
 {
+    #[cfg(zkryptium_verif)]
+    crate::verif_hooks::tick("phase:proof_init");
     let L = messages.len();
     let U = undisclosed_indexes.len();
 
@@ -760,6 +764,8 @@ fn proof_finalize(
     random_scalars: &[Scalar],
     undisclosed_messages: &[BBSplusMessage],
 ) -> Result<BBSplusPoKSignature, Error> {
+    #[cfg(zkryptium_verif)]
+    crate::verif_hooks::tick("phase:proof_finalize");
     let U = undisclosed_messages.len();
 
     let r1 = random_scalars[0];
@@ -827,6 +833,8 @@ fn core_proof_verify<CS>(
 where
     CS: BbsCiphersuite,
 {
+    #[cfg(zkryptium_verif)]
+    crate::verif_hooks::tick("phase:core_proof_verify");
     let init_res = proof_verify_init::<CS>(
         pk,
         proof,
@@ -893,6 +901,8 @@ fn proof_verify_init<CS>(
 where
     CS: BbsCiphersuite,
 {
+    #[cfg(zkryptium_verif)]
+    crate::verif_hooks::tick("phase:proof_verify_init");
     let U = proof.m_cap.len();
     let R = disclosed_indexes.len();
 
